@@ -213,8 +213,9 @@ theorem apply_shape_translated {α ε : Type} (ab : Option Nat → List α → E
       | .error e => .error (.other e)) := by
   rw [apply_eq, apply_eq]; exact ⟨applySrc_shape ab bs a, applySrc_arr ab bs a⟩
 
-/-- PROPERTY (`pwa_point_in_pointcloud`, on translated functions all the way down): the mask is the per-pixel closed
-containment test, whatever the (valid) batch size -/
+/-- PROPERTY (`pwa_point_in_pointcloud`, on translated functions all the way down): the mask is the per-pixel test
+`some triangle contains the pixel` of the model (the closed-triangle test for triangles of non-zero area, see
+`contains_iff_closed_triangle`), whatever the (valid) batch size -/
 theorem pointInPointcloud_translated (ts : List Tri) (bs : Option Nat) (hbs : ValidBatch bs) (ps : List Pt) :
     pointInPointcloudT (fun a b => (a, b))
       (fun t k x => pwaApplyBatchedT (pwaApplyT (pythonIabT t.1) (t.2.map Tri.i) (t.2.map Tri.ij) (t.2.map Tri.ik)) k x)
